@@ -122,6 +122,7 @@ type Conn struct {
 	StopCalls   int32
 	ErrInjected int32
 	Delivered   int32 // the one monitor event has been put on the channel
+	hold        chan struct{} // if set, the monitor event is delivered only after this channel is closed
 	// net mode: the attachment lives behind the real backend; tcp is its data connection
 	net     bool
 	tcp     net.Conn // guarded by F.mu
@@ -491,12 +492,18 @@ func (c *Conn) InjectMonitor(err error) {
 
 // monitor reproduces remote.monitorPing: exactly one value is ever sent.
 func (c *Conn) monitor() {
+	var ev error
 	select {
 	case <-c.closeChan:
-		c.monitorChan <- nil
-	case err := <-c.inject:
-		c.monitorChan <- err
+	case ev = <-c.inject:
 	}
+	if c.hold != nil {
+		<-c.hold // the event of this attachment reaches the controller late (e.g. the rpc client's 2 s grace)
+		if ev == nil {
+			ev = fmt.Errorf("r/w timeout")
+		}
+	}
+	c.monitorChan <- ev
 	atomic.StoreInt32(&c.Delivered, 1)
 }
 
